@@ -17,6 +17,68 @@ CHECKS = {
              "(min non-zero excess 0.0125 > 0.01). Points within 1e-6 relative of the tolerance are skipped.",
         ref="DESIGN.md section 3 C16",
     ),
+
+    "C03": dict(
+        technique="Hypothesis PBT over lots through the public manager API; oracle: bounds, exact lattice, cKDTree min distance, ordering",
+        text="Generated lots (length <,=,> width, sides as free floats or exact multiples of a spacing) for the four "
+             "rectangular-family methods; every candidate field of every list is checked for staying on the land, no "
+             "coincident boreholes, min pairwise distance >= b_min, near-square exact lattices and list ordering. Sampling of a "
+             "continuous domain biased towards transposed lots and integer side/spacing ratios.",
+        note="Trusted: scipy cKDTree; generator keeps every side >= 2 x its max spacing and guarantees that some row count "
+             "fits (otherwise there is no candidate list at all).",
+        ref="DESIGN.md section 3 C03",
+    ),
+    "C04": dict(
+        technique="Hypothesis PBT over polygon sites; oracle: exact rational point classification + 50-digit edge-band metric, must-keep/may-keep set inclusion",
+        text="Generated property outlines (convex, star-shaped, rectilinear, 1..3, open or closed, touching axes) and no-go "
+             "polygons; each candidate field must lie between the must-keep and may-keep subsets of the bi-rectangle grid it "
+             "derives from, every grid with must-keep points must be represented, lists ordered. Sampling.",
+        note="Trusted: vlib/oracle_geometry.py; grids recomputed with domains.bi_rectangle_nested (C03 checks it); points within "
+             "1e-6 relative of the 0.01 tolerance may go either way.",
+        ref="DESIGN.md section 3 C04",
+    ),
+    "C06": dict(
+        technique="Hypothesis PBT over load profiles x horizons; oracle: independent monthly energy from the hourly profile (O1 calendar)",
+        text="Real HybridLoad objects for generated 8760-h profiles (8 families incl. single-direction, zero months, peaks on "
+             "first/last day, same-day peaks) and horizons 1..360; signed integral between month-end breakpoints must equal "
+             "the calendar month's net hourly energy for every simulated month, and the horizon total. Sampling.",
+        note="Tolerance 1e-5 h x max|kW| + 1e-9 x gross kWh (the code's own 1e-6 h placeholder duration). KF-C06-1 recorded.",
+        ref="DESIGN.md section 3 C06",
+    ),
+    "C07": dict(
+        technique="Hypothesis PBT; oracle: segment-pattern reference model + independent Cullin-Spitler duration recomputation",
+        text="For generated profiles x boreholes (pool and full single-U parameter space) x horizons: exact segment pattern and "
+             "pulse magnitudes per month, durations in (0,48], pulse width/centre, and each duration recomputed with an "
+             "independent convolution + inverse interpolation on the same g_sts to 1e-9. Sampling.",
+        note="Normalising peak: month peak or window maximum both accepted; centre check skipped when the window would start "
+             "before t=0; ill-conditioned (peak-avg < 1e-6 peak) durations not recomputed. KF-C07-1 recorded.",
+        ref="DESIGN.md section 3 C07",
+    ),
+    "C08": dict(
+        technique="Hypothesis PBT + exhaustive calendar enumeration (months 1..360) against an independent non-leap calendar",
+        text="Time axis start, month-end breakpoints, exact horizon end, year-1 replication of monthly values, conditional "
+             "strict monotonicity (precondition evaluated for both readings of noon); calendar helpers exhaustively for "
+             "months 1..360. Exhaustive for the helpers, sampling for profiles.",
+        note="Trusted: vlib/gen_loads.py O1 calendar.",
+        ref="DESIGN.md section 3 C08",
+    ),
+    "C09": dict(
+        technique="Hypothesis PBT; differential against an independent O(n^2) superposition reference + metamorphic relations",
+        text="_simulate_detailed on generated load sequences / irregular times / monotone g tables, and GHE.simulate for both "
+             "time-step methods on real GHE objects (all pipe types, N 1..400, 1..5 stored heights), compared step by step with "
+             "a direct transcription of the documented formula (1e-9 K); zero-load, linearity, ground-temperature shift and "
+             "conditional sign relations checked independently of the reference. Sampling.",
+        note="g evaluated with np.interp on the object's own table; hourly method for 12/24-month horizons only.",
+        ref="DESIGN.md section 3 C09",
+    ),
+    "C19": dict(
+        technique="exhaustive enumeration of 8760 hours and 360 month ends + Hypothesis PBT for elapsed times and output tables",
+        text="ghe_time_convert for every hour of the year and hours_to_month at every month end (exhaustive), hours_to_month on "
+             "generated time pairs (value, monotonicity, continuity), and Loadings / BoreFieldData / Gfunction rows from real "
+             "GHE objects against the inputs, the coordinates and the curve used by simulate().",
+        note="Tables are built with OutputManager's row builders on a design-like namespace around a real GHE.",
+        ref="DESIGN.md section 3 C19",
+    ),
 }
 
 NOT_YET = {}
